@@ -278,6 +278,7 @@ func c06Check(c *core.Ctx, cs c06Case, rend *gen.Rendered) c06Outcome {
 				for _, dg := range rep.Diagnostics {
 					// find the field whose positions these are
 					var owner *core.DNode
+					ambiguous := false
 					for ei := range res.Dump.Entries {
 						e := &res.Dump.Entries[ei]
 						nodes := []*core.DNode{e.Rule.NameNode, e.Rule.Expr, e.Rule.For, e.Rule.KeepFiringFor, e.Rule.LabelsKey, e.Rule.AnnotationKey}
@@ -289,11 +290,16 @@ func c06Check(c *core.Ctx, cs c06Case, rend *gen.Rendered) c06Outcome {
 						}
 						for _, n := range nodes {
 							if n != nil && fmt.Sprint(n.Pos) == fmt.Sprint(dg.Pos) {
+								if owner != nil && owner.Value != n.Value {
+									// two fields claim the same positions (a position defect the field monitor
+									// above reports): the diagnostic cannot be attributed to one of them
+									ambiguous = true
+								}
 								owner = n
 							}
 						}
 					}
-					if owner == nil {
+					if owner == nil || ambiguous {
 						continue
 					}
 					if msg := readBack(lines, expandPos(owner.Pos), owner.Value); msg != "" {
